@@ -54,6 +54,25 @@ CLAIMED["C18"] = ("model_checking", "Stateful executable Coq model of Data.get_s
     "witness, reproduced on the implementation and repaired by fix c0f782e); cache-hit and mask-idempotence lemmas (partial); the unbounded "
     "invariant proof is in progress. Falsifier: every response vs a fresh Data, earlier arrays / inputs unchanged, repeatability.",
     "7 C18", "Coq executable state-machine model + exhaustive-history correspondence check (partial proof)")
+TRANS_NOTE = ("Python-ast -> Gallina translator regenerates the definitions from /repo on every run (fail-closed); theorems over the "
+    "extended reals XR (NaN | -inf | +inf | finite real, IEEE special-value rules, exact finite arithmetic); the same generated text is run on "
+    "Coq primitive floats and diffed against the real classes (translation validation); falsifier with independent textbook oracles. ")
+CLAIMED["C05"] = ("proof", TRANS_NOTE + "C05: pair filter (no valid pair => NaN, only valid pairs scored), the chosen aggregator is applied to "
+    "the documented quantity for ANY aggregator (mae, bias, diff, ratio, rmse), closed forms / undefined cases / never-better-than-perfect / "
+    "perfect-forecast theorems for mae, bias, rmse, stderror, nsec, diff on vectors of every length; 21 metric classes x 16 aggregators "
+    "validated; alphaindex perfect score REFUTED (known finding), leps not modelled (falsifier only); rank correlations are named "
+    "specifications compared with scipy.", "7 C05", "Coq proof over translated source + translation validation")
+CLAIMED["C08"] = ("proof", TRANS_NOTE + "C08: event probability from the CDF for all 8 bin types, Brier score / uncertainty / skill score closed forms, "
+    "complement symmetry, every probability in [0,1] lies in exactly one of the 10 bins (exact double edges, top edge 1.001), ensemble-derived "
+    "probability = fraction of present members (in [0,1], missing members ignored, all missing => NaN), pinball terms non-negative. The "
+    "binned reliability/resolution terms are generated per bin + hand glue (Model/Brier.v) and validated on floats; the Murphy "
+    "decomposition is checked as an identity on every run (its proof is not done: partial).", "7 C08", "Coq proof over translated source + translation validation")
+CLAIMED["C15"] = ("proof", TRANS_NOTE + "C15: every generated aggregator is its statistic (mean, sum, meanabs != absmean, count, min, max, range, change, "
+    "abschange, variance, std, iqr, quantile with level in [0,1]); -T: hand model Model/Window.v of preaggregate_leadtime/_time with the "
+    "theorem that for every strictly increasing grid the aggregated positions are exactly the trailing window (l-h, l] (irregular spacing, "
+    "any window length), same function for obs/fcst/members; REFUTED for unsorted grids (known finding); model tied over Q for 12 aggregators; "
+    "aggregation along every axis of arrays up to 4-D and ensemble pre-aggregation checked on the implementation.", "7 C15",
+    "Coq proof over translated source + hand model with correspondence check")
 PENDING = {}
 
 def main():
